@@ -1641,6 +1641,23 @@ class RefCatalog(object):
 
         xv, yv = convex_hull(x, y, wcs=None, min_separation=1e-11)
 
+        if len(xv) > 3:
+            # Sources that are collinear up to rounding errors (of the order
+            # of 1e-16 for coordinates derived from unit vectors) produce a
+            # degenerate (zero-area) hull that contains none of them.
+            # Treat a hull narrower than 1e-14 rad as the segment between
+            # its end points:
+            xv = np.asarray(xv, dtype=np.double)
+            yv = np.asarray(yv, dtype=np.double)
+            area2 = np.abs(np.sum(xv[:-1] * yv[1:] - xv[1:] * yv[:-1]))
+            diag = np.hypot(np.ptp(xv), np.ptp(yv))
+            if area2 <= 1e-14 * diag:
+                dist2 = (np.subtract.outer(xv, xv)**2 +
+                         np.subtract.outer(yv, yv)**2)
+                k1, k2 = np.unravel_index(np.argmax(dist2), dist2.shape)
+                xv = xv[[k1, k2, k1]]
+                yv = yv[[k1, k2, k1]]
+
         if len(xv) == 0:
             # no points
             raise RuntimeError(  # pragma: no cover
